@@ -128,8 +128,17 @@ func implStream(b []byte) string {
 	return safe(func() string {
 		var parts []string
 		off := 0
+		// the streaming pattern with ONE receiver reused for every transaction (Tx.ReadFrom into a Tx that still holds the
+		// previous one) must give what a fresh parse gives
+		reused := &bt.Tx{}
+		_, _ = reused.ReadFrom(bytes.NewReader(mustHex("01000000017f7f7f7f7f7f7f7f7f7f7f7f7f7f7f7f7f7f7f7f7f7f7f7f7f7f7f7f7f7f7f7f0100000001510200000001e80300000000000001520a000000")))
+		differs := false
 		for off < len(b) {
-			_, used, err := bt.NewTxFromStream(b[off:])
+			fresh, used, err := bt.NewTxFromStream(b[off:])
+			n2, err2 := reused.ReadFrom(bytes.NewReader(b[off:]))
+			if (err == nil) != (err2 == nil) || (err == nil && (int(n2) != used || !bytes.Equal(reused.ExtendedBytes(), fresh.ExtendedBytes()))) {
+				differs = true
+			}
 			if err != nil {
 				parts = append(parts, "err")
 				break
@@ -139,6 +148,9 @@ func implStream(b []byte) string {
 				break
 			}
 			off += used
+		}
+		if differs {
+			parts = append(parts, "reused-receiver-differs")
 		}
 		return "ns=" + strings.Join(parts, ",")
 	})
